@@ -115,3 +115,64 @@ Proof.
     + destruct (Z.eqb_spec (Z.lor (Z.land fl (effect_of o)) (Z.land fl (effects_spec r))) 0) as [G|G]; [|reflexivity].
       apply Z.lor_eq_0_iff in G. tauto.
 Qed.
+
+(* --- compositionality of the analysis (union semantics) --- *)
+From Coq Require Import Permutation.
+
+Lemma effects_spec_app a b : effects_spec (a ++ b) = Z.lor (effects_spec a) (effects_spec b).
+Proof.
+  induction a as [|o r IH]; [cbn [app effects_spec fold_right]; rewrite Z.lor_0_l; reflexivity|].
+  cbn [app effects_spec fold_right]. fold (effects_spec (r ++ b)). fold (effects_spec r).
+  rewrite IH, Z.lor_assoc. reflexivity.
+Qed.
+
+Lemma analyze_app a b : analyze (a ++ b) = Z.lor (analyze a) (analyze b).
+Proof. rewrite !analyze_exact. apply effects_spec_app. Qed.
+
+Lemma effects_spec_perm a b : Permutation a b -> effects_spec a = effects_spec b.
+Proof.
+  intros P. induction P as [|x l l' P IH|x y l|l l' l'' P1 IH1 P2 IH2].
+  - reflexivity.
+  - cbn [effects_spec fold_right]. fold (effects_spec l). fold (effects_spec l'). rewrite IH. reflexivity.
+  - cbn [effects_spec fold_right]. fold (effects_spec l).
+    rewrite !Z.lor_assoc, (Z.lor_comm (effect_of y) (effect_of x)). reflexivity.
+  - rewrite IH1. exact IH2.
+Qed.
+
+Lemma analyze_perm a b : Permutation a b -> analyze a = analyze b.
+Proof. intros P. rewrite !analyze_exact. apply effects_spec_perm, P. Qed.
+
+Lemma effect_of_range o : Z.land 63 (effect_of o) = effect_of o.
+Proof. destruct o; reflexivity. Qed.
+
+Lemma effects_spec_land63 ops : Z.land 63 (effects_spec ops) = effects_spec ops.
+Proof.
+  induction ops as [|o r IH]; [reflexivity|].
+  cbn [effects_spec fold_right]. fold (effects_spec r).
+  rewrite Z.land_lor_distr_r, effect_of_range, IH. reflexivity.
+Qed.
+
+Lemma effects_spec_nonneg ops : 0 <= effects_spec ops.
+Proof.
+  induction ops as [|o r IH]; [cbn; apply Z.le_refl|].
+  cbn [effects_spec fold_right]. fold (effects_spec r).
+  apply Z.lor_nonneg. split; [destruct o; cbn; try apply Z.le_refl; discriminate | exact IH].
+Qed.
+
+Lemma analyze_range ops : 0 <= analyze ops < 64.
+Proof.
+  rewrite analyze_exact. split; [apply effects_spec_nonneg|].
+  rewrite <- effects_spec_land63.
+  rewrite Z.land_comm. change 63 with (Z.ones 6). rewrite Z.land_ones by discriminate.
+  apply Z.mod_pos_bound. reflexivity.
+Qed.
+
+(* a program is reported effect-free exactly when none of its operations has an effect *)
+Lemma analyze_zero_iff ops : analyze ops = 0 <-> Forall (fun o => effect_of o = 0) ops.
+Proof.
+  rewrite analyze_exact. induction ops as [|o r IH].
+  - split; [constructor | reflexivity].
+  - cbn [effects_spec fold_right]. fold (effects_spec r). rewrite Z.lor_eq_0_iff. split.
+    + intros [A B]. constructor; [exact A | apply IH, B].
+    + intros F. inversion F as [|? ? A B]; subst. split; [exact A | apply IH, B].
+Qed.
